@@ -492,6 +492,11 @@ def _short(o):
 CLASSES_BY_PROP["C17"] = ["SO3", "SE3", "SO2", "SE2", "Quaternion", "UnitQuaternion", "Twist3", "Twist2", "Plucker",
                           "SpatialVelocity", "SpatialAcceleration", "SpatialForce", "SpatialMomentum"]
 
+VARIANT_TEXT = (" Representation probes (sub-checks 'variant_cells', 'variants'): the property's calls must not depend on how the values are "
+                "held: integer-typed pose matrices (also as FIRST value of a multi-valued object) versus float64; objects of 70 and 300 values "
+                "versus single-valued results; operands carrying the coherent rounding of ((X**8)**8)**8 versus the same operands "
+                "re-orthonormalised; a write through .A of a default-constructed object or of one Alloc slot must not change later default "
+                "objects / other slots; 3000 consecutive products stay valid and never raise.")
 AUG_TEXT = (" Augmented operators (sub-checks 'augmented_cells', 'augmented'): X op= Y must have exactly the outcome of X op Y (class, "
             "length, values, or the same exception class) for *=, /=, +=, -= on poses and *=, **= on quaternions, with right operands of "
             "the same class (1..4 values each side), every other class, scalars, vectors.")
@@ -504,6 +509,9 @@ RULE_TEXT = (" History probe (sub-checks 'history_cells', 'history'): the calls 
 
 def run(case, pid):
     from .common import Checker
+    if case["kind"] == "variant":
+        from . import probes2
+        return probes2.run(case, pid)
     if case["kind"] == "aug":
         c = Checker("aug")
         aug_check(c, case, pid)
@@ -514,6 +522,9 @@ def run(case, pid):
 
 
 def classify(case):
+    if case["kind"] == "variant":
+        from . import probes2
+        return probes2.classify(case)
     if case["kind"] == "aug":
         return {"kind:aug": True, "aug:" + case["cls"] + case["op"]: True, "aug:right=" + case["rkind"]: True,
                 "aug:broadcast": case["rkind"] == "same" and len(case["us"]) != len(case["rus"]), "nontrivial": True}
@@ -527,6 +538,8 @@ def subs(pid, n=(40, 1500)):
     if pid in AUG_PROPS:
         out += [Sub("augmented_cells", gen=lambda tier: aug_cells(pid), shards=(2, 4)),
                 Sub("augmented", strategy=aug_strategy(pid), n=n, shards=(2, 8))]
+    from . import probes2
+    out += probes2.subs(pid)
     return out
 
 
